@@ -386,6 +386,24 @@ GENS = {
     print("E", tag, "after")
     return 4
 ''',
+    # a yield inside an except block: the handled exception survives the suspension (a bare raise re-raises it), also around a nested handler
+    'excy': '''def g_excy(tag):
+    try:
+        raise KeyError(tag)
+    except KeyError:
+        x = yield 1
+        print("E", tag, "got", x)
+        try:
+            raise ZeroDivisionError
+        except ZeroDivisionError:
+            y = yield 2
+            print("E", tag, "inner", y)
+        if x == 5:
+            raise
+        z = yield 3
+        print("E", tag, "got3", z)
+    print("E", tag, "end")
+''',
     # delegation to an iterator that is not a generator but has send(): sent values must reach it
     'yfc': '''def g_yfc(tag):
     r = yield from SI(tag + "s")
@@ -401,7 +419,7 @@ GENS = {
     print("E", tag, "got", x)
 ''',
 }
-GEN_ORDER = ['acc', 'fin', 'exc', 'leak', 'mid', 'yf', 'yfv', 'nest', 'retfin', 'yfc', 'yfl']
+GEN_ORDER = ['acc', 'fin', 'exc', 'leak', 'mid', 'yf', 'yfv', 'nest', 'retfin', 'yfc', 'yfl', 'excy']
 
 DRIVER = '''def res(tag, e):
     a = e.args
@@ -849,7 +867,7 @@ def run(tier, rep):
                 '(+ each further element shape once without fault); non-trivial = distinct (consumer, producer, shape, fault, position) whose reference run reached the fault position (or no fault). '
                 '(b) %s; non-trivial = distinct (generator templates, operation sequence) that touches more than one generator'
                 % (len(CONSUMERS), len(PRODUCERS), N,
-                   '2 live generators, all 66 pairs of 11 templates: all 4^5 sequences of {next, send(v)} of length 5 (v alternates 3/5), and for 6 seeded pairs all 6^5 sequences of {next, send(3), send(5)}; every sequence ends by draining each generator' if quick else
+                   '2 live generators, all 78 pairs of 12 templates: all 4^5 sequences of {next, send(v)} of length 5 (v alternates 3/5), and for 6 seeded pairs all 6^5 sequences of {next, send(3), send(5)}; every sequence ends by draining each generator' if quick else
                    'over 3 live generators (8 seeded template triples + one with the raising-in-a-loop template): all 6^6 sequences of {next, send} of length 6 (send value alternates 3/5) plus all 3^8 generator orders of length 8 with 2 sampled next/send(3)/send(5) assignments each'))
     rep.assumptions = ['CPython 3.11 is the reference; exception types only', 'generator bodies never raise or leak StopIteration themselves (PEP 479)',
                        'dict/set results are shown in a fixed candidate order, never in iteration order',
